@@ -184,7 +184,7 @@ func FnPkg(fn *ssa.Function) string { return Short(fnPkgPath(fn)) }
 
 // FnName is the short, stable name used in tables: e.g. "(*controllers/provisioning.Provisioner).Create", closures "…$1".
 // FnName is the canonical short name of a function. An unexported plain function whose first parameter (after an optional
-// context) is a struct type of its own package — or a pointer to one — is named like the method it could equally be
+// context) is a struct, slice or map type declared in its own package — or a pointer to one — is named like the method it could equally be
 // ("(*pkg.T).name"): turning an unexported helper method into a function taking the receiver as an argument (or back)
 // is not a change of the program, and every table row quotes this name. Parameter numbering follows (PseudoRecv).
 func FnName(fn *ssa.Function) string {
@@ -246,7 +246,9 @@ func pseudoRecv(fn *ssa.Function) int {
 	if !ok || named.Obj().Pkg() == nil || named.Obj().Pkg() != fn.Pkg.Pkg || named.TypeArgs().Len() > 0 {
 		return -1
 	}
-	if _, isStruct := named.Underlying().(*types.Struct); !isStruct {
+	switch named.Underlying().(type) {
+	case *types.Struct, *types.Slice, *types.Map:
+	default:
 		return -1
 	}
 	// a real method of that name exists: keep both apart
